@@ -93,6 +93,13 @@ def run(ctx):
             c2.d(b'/W').d(b'/W/data').f(b'/W/data/x').f(b'/W/data.csv').d(b'/W/data2').f(b'/W/data2/keep').d(b'/W/DEST').f(b'/W/DEST/data.csv').d(b'/W/DEST/data2').f(b'/W/DEST/data2/keep')
             c2.opts = ['r', 'n']; c2.paths = list(order) + [b'DEST']; c2.coll = (b'data.csv', 'f', 'file'); c2.meta = dict(dest=b'/W/DEST'); c2.extra = []
             corp.append(c2)
+    # corpus 4: bystanders named like partial/temporary versions of a source's target, next to a FREE target
+    for driver in ('parfile', 'parblock'):
+        for suf in (b'.part', b'.tmp', b'~'):
+            c3 = treerun.Scn(); c3.driver = driver
+            c3.d(b'/W').f(b'/W/image.iso').d(b'/W/tree').f(b'/W/tree/a').d(b'/W/DEST').f(b'/W/DEST/image.iso' + suf).f(b'/W/DEST/notes.txt').d(b'/W/DEST/tree' + suf).f(b'/W/DEST/tree' + suf + b'/x')
+            c3.opts = ['r', 'n']; c3.paths = [b'image.iso', b'tree', b'DEST']; c3.coll = None; c3.meta = dict(dest=b'/W/DEST'); c3.extra = []
+            corp.append(c3)
     scs = [c0, c1] + corp + [gen(rng, ['parfile', 'parblock'][i % 2]) for i in range(n)]
     runs = []
     with core.Scratch('c08') as base:
